@@ -35,11 +35,13 @@ Modelled == {"push_back", "push_back_m", "emplace_back_c", "emplace_back_v", "in
              "ctor_copy", "ctor_move", "assign_copy", "assign_copy_f", "assign_move", "assign_move_f", "swap",
              "append_copy", "append_move", "cmp"}
 
-\* range calls are modelled for pointer ranges only (kind 4); the kind argument sits at a different index per call
-RangeKindOK(ln) ==
-  CASE ln.op \in {"assign_rng", "append_rng"} -> ln.a[1] = 4
-    [] ln.op \in {"insert_rng", "ctor_rng"}   -> ln.a[2] = 4
-    [] OTHER -> TRUE
+\* range calls are modelled for every multi-pass kind (forward, bidirectional, random access, pointer, move_iterator,
+\* another container's iterators); single-pass input ranges (kind 0) are L1 / L0 only
+RangeKind(ln) ==
+  CASE ln.op \in {"assign_rng", "append_rng"} -> ln.a[1]
+    [] ln.op \in {"insert_rng", "ctor_rng"}   -> ln.a[2]
+    [] OTHER -> 4
+RangeKindOK(ln) == RangeKind(ln) \in {1, 2, 3, 4, 5, 6}
 
 (***************************************************************************)
 (* Instructions                                                            *)
@@ -56,6 +58,7 @@ ITry(body, handler)  == [t |-> "try", body |-> body, handler |-> handler]
 IUc(items)           == [t |-> "uc", items |-> items]      \* self-cleaning uninitialized_copy / fill / value-construct
 IThrow(what)         == [t |-> "throw", what |-> what]
 IRet(x)              == [t |-> "ret", x |-> x]
+ITick(fk)            == [t |-> "tick", fk |-> fk]        \* a fallible step of the caller's iterator (no event): 8 dereference, 9 increment
 
 (***************************************************************************)
 (* Interpreter                                                             *)
@@ -65,12 +68,14 @@ StrongKind(cfg) == IF cfg.hasMove /\ (cfg.nothrowMoveCtor \/ ~cfg.copyable) THEN
 
 Fallible(cfg, ins) ==
   CASE ins.t = "alloc" -> TRUE
+    [] ins.t = "tick" -> TRUE
     [] ins.t = "ctor" -> ins.kind \in {0, 1, 3} \/ (ins.kind = 2 /\ ~cfg.nothrowMoveCtor)
     [] ins.t = "asg"  -> ins.kind = 1 \/ (ins.kind = 2 /\ ~cfg.nothrowMoveAssign)
     [] OTHER -> FALSE
 
 FaultKind(ins) ==
   CASE ins.t = "alloc" -> 1
+    [] ins.t = "tick" -> ins.fk
     [] ins.t = "ctor" -> (CASE ins.kind = 0 -> 6 [] ins.kind = 1 -> 2 [] ins.kind = 2 -> 3 [] OTHER -> 7)
     [] ins.t = "asg" -> IF ins.kind = 1 THEN 4 ELSE 5
     [] OTHER -> 0
@@ -144,7 +149,8 @@ RunUc(cfg, s, items, i) ==
   IF i > Len(items) THEN [s |-> s, exc |-> ""]
   ELSE LET r == RunOne(cfg, s, items[i]) IN
        IF r.exc = "" THEN RunUc(cfg, r.s, items, i + 1)
-       ELSE LET undo == [j \in 1..(i - 1) |-> IDtor(items[j].r, items[j].i)]
+       ELSE LET built == SelectSeq(SubSeq(items, 1, i - 1), LAMBDA it : it.t = "ctor")
+                undo == [j \in 1..Len(built) |-> IDtor(built[j].r, built[j].i)]
                 h == RunSeq(cfg, r.s, undo, 1)
             IN [s |-> h.s, exc |-> r.exc]
 
@@ -333,44 +339,68 @@ EraseRangeImpl(cfg, c, x, R, f, l) ==
   IF f = l THEN <<IRet(f)>>
   ELSE MoveLeft(cfg, R, l, x.sz, f) \o <<ISetSz(c, x.sz - (l - f))>> \o DestroyRange(R, x.sz - (l - f), x.sz) \o <<IRet(f)>>
 
-\* ---- contiguous source ranges: element j of the caller's range is the external cell <<4, j>>
-UCopyExt(R2, dlo, lo, hi) == IUc(Seqq(lo, hi, LAMBDA j : ICtor(R2, dlo + (j - lo), 1, 4, j, 0)))
+\* ---- source ranges: element j of the caller's range is the external cell <<4, j>>.  rk = iterator kind of the driver:
+\* 1 forward, 2 bidirectional, 3 random access (instrumented: * and ++ are fallible steps), 4 pointer,
+\* 5 move_iterator<pointer> (elements are moved from), 6 iterators of another container
+Ticks(rk)     == rk \in {1, 2, 3}
+CtorKind(cfg, rk) == IF rk = 5 THEN MoveKind(cfg) ELSE 1
+\* std::distance / std::advance walk forward and bidirectional iterators one step at a time
+StepTicks(rk, n) == IF rk \in {1, 2} THEN [j \in 1..n |-> ITick(9)] ELSE <<>>
+
+\* default_uninitialized_copy (2127): construct (d, *first); ++d; ++first
+UCopyExt(cfg, rk, R2, dlo, lo, hi) ==
+  IUc(IF Ticks(rk)
+        THEN [k \in 1..(3 * (hi - lo)) |->
+                LET j == lo + (k - 1) \div 3 IN
+                CASE (k - 1) % 3 = 0 -> ITick(8) [] (k - 1) % 3 = 1 -> ICtor(R2, dlo + (j - lo), 1, 4, j, 0) [] OTHER -> ITick(9)]
+        ELSE Seqq(lo, hi, LAMBDA j : ICtor(R2, dlo + (j - lo), CtorKind(cfg, rk), 4, j, 0)))
+
+\* std::copy / std::copy_n onto live elements: *d = *first; ++first; ++d
+CopyAsg(cfg, rk, R, dlo, lo, hi) ==
+  IF Ticks(rk)
+    THEN [k \in 1..(3 * (hi - lo)) |->
+            LET j == lo + (k - 1) \div 3 IN
+            CASE (k - 1) % 3 = 0 -> ITick(8) [] (k - 1) % 3 = 1 -> IAsg(R, dlo + (j - lo), 1, 4, j) [] OTHER -> ITick(9)]
+    ELSE Seqq(lo, hi, LAMBDA j : IAsg(R, dlo + (j - lo), CtorKind(cfg, rk), 4, j))
 
 \* assign_with_range, forward overload (3575)
-AssignRange(cfg, c, x, R, id, n) ==
-  IF x.cap < n THEN
+AssignRange(cfg, c, x, R, id, n, rk) ==
+  StepTicks(rk, n) \o
+  (IF x.cap < n THEN
     IF cfg.max < n THEN <<IThrow("length_error")>>
     ELSE LET nc == GrowTo(cfg, x.cap, n)
              R2 == 10 + id
-         IN <<IAlloc(id, nc, x.al), ITry(<<UCopyExt(R2, 0, 0, n)>>, <<IDealloc(id, nc, x.al)>>)>>
+         IN <<IAlloc(id, nc, x.al), ITry(<<UCopyExt(cfg, rk, R2, 0, 0, n)>>, <<IDealloc(id, nc, x.al)>>)>>
             \o ResetData(c, x, R, id, nc, n)
   ELSE IF x.sz < n THEN
-    Seqq(0, x.sz, LAMBDA i : IAsg(R, i, 1, 4, i)) \o <<UCopyExt(R, x.sz, x.sz, n), ISetSz(c, n)>>
+    CopyAsg(cfg, rk, R, 0, 0, x.sz) \o <<UCopyExt(cfg, rk, R, x.sz, x.sz, n), ISetSz(c, n)>>
   ELSE
-    Seqq(0, n, LAMBDA i : IAsg(R, i, 1, 4, i))
-    \o (IF n < x.sz THEN <<ISetSz(c, n)>> \o DestroyRange(R, n, x.sz) ELSE <<>>)
+    CopyAsg(cfg, rk, R, 0, 0, n)
+    \o (IF n < x.sz THEN <<ISetSz(c, n)>> \o DestroyRange(R, n, x.sz) ELSE <<>>))
 
 \* append_range, forward overload (3763); kind = how the old elements are relocated
-AppendRange(cfg, c, x, R, id, n, kind) ==
-  IF x.cap - x.sz < n THEN
+AppendRange(cfg, c, x, R, id, n, kind, rk) ==
+  StepTicks(rk, n) \o
+  (IF x.cap - x.sz < n THEN
     IF cfg.max - x.sz < n THEN <<IThrow("length_error")>>
     ELSE LET nc == GrowTo(cfg, x.cap, x.sz + n)
              R2 == 10 + id
          IN <<IAlloc(id, nc, x.al),
-              ITry(<<UCopyExt(R2, x.sz, 0, n),
+              ITry(<<UCopyExt(cfg, rk, R2, x.sz, 0, n),
                      ITry(<<UMove(cfg, kind, R, 0, x.sz, R2, 0)>>, DestroyRange(R2, x.sz, x.sz + n))>>,
                    <<IDealloc(id, nc, x.al)>>)>>
             \o ResetData(c, x, R, id, nc, x.sz + n) \o <<IRet(x.sz)>>
-  ELSE <<UCopyExt(R, x.sz, 0, n), ISetSz(c, x.sz + n), IRet(x.sz)>>
+  ELSE <<UCopyExt(cfg, rk, R, x.sz, 0, n), ISetSz(c, x.sz + n), IRet(x.sz)>>)
 
 \* insert_range_helper (3990), pos < sz, n > 0
-InsertRangeHelper(cfg, c, x, R, id, pos, n) ==
-  IF x.cap - x.sz < n THEN
+InsertRangeHelper(cfg, c, x, R, id, pos, n, rk) ==
+  StepTicks(rk, n) \o
+  (IF x.cap - x.sz < n THEN
     IF cfg.max - x.sz < n THEN <<IThrow("length_error")>>
     ELSE LET nc == GrowTo(cfg, x.cap, x.sz + n)
              R2 == 10 + id
          IN <<IAlloc(id, nc, x.al),
-              ITry(<<UCopyExt(R2, pos, 0, n),
+              ITry(<<UCopyExt(cfg, rk, R2, pos, 0, n),
                      ITry(<<UMove(cfg, MoveKind(cfg), R, 0, pos, R2, 0)>>, DestroyRange(R2, pos, pos + n)),
                      ITry(<<UMove(cfg, MoveKind(cfg), R, pos, x.sz, R2, pos + n)>>, DestroyRange(R2, 0, pos + n))>>,
                    <<IDealloc(id, nc, x.al)>>)>>
@@ -378,25 +408,28 @@ InsertRangeHelper(cfg, c, x, R, id, pos, n) ==
   ELSE
     LET tail == x.sz - pos IN
     IF tail < n THEN
-      <<UCopyExt(R, x.sz, tail, n), ISetSz(c, x.sz + n - tail),
+      StepTicks(rk, tail)                     \* pivot = unchecked_next (first, tail_size)
+      \o <<UCopyExt(cfg, rk, R, x.sz, tail, n), ISetSz(c, x.sz + n - tail),
         ITry(<<UMove(cfg, MoveKind(cfg), R, pos, x.sz, R, x.sz + n - tail), ISetSz(c, x.sz + n),
-               ITry(Seqq(0, tail, LAMBDA j : IAsg(R, pos + j, 1, 4, j)),
+               ITry(CopyAsg(cfg, rk, R, pos, 0, tail),
                     MoveLeft(cfg, R, x.sz + n - tail, x.sz + n, pos) \o DestroyRange(R, x.sz + n - tail, x.sz + n)
                     \o <<ISetSz(c, x.sz + n - tail)>>)>>,
              <<[t |-> "dtor_to_size", c |-> c, R |-> R, from |-> x.sz]>>),
         IRet(pos)>>
     ELSE
       Shift(cfg, c, x, R, pos, n)
-      \o <<ITry(Seqq(0, n, LAMBDA j : IAsg(R, pos + j, 1, 4, j)),
+      \o <<ITry(CopyAsg(cfg, rk, R, pos, 0, n),
                 MoveLeft(cfg, R, pos + n, x.sz + n, pos) \o DestroyRange(R, x.sz, x.sz + n) \o <<ISetSz(c, x.sz)>>),
-           IRet(pos)>>
+           IRet(pos)>>)
 
 \* insert_range, forward overload (4103) behind the public insert (which returns early for an empty range)
-InsertRange(cfg, c, x, R, id, pos, n) ==
+InsertRange(cfg, c, x, R, id, pos, n, rk) ==
   IF n = 0 THEN <<IRet(pos)>>
-  ELSE IF pos # x.sz THEN InsertRangeHelper(cfg, c, x, R, id, pos, n)
-  ELSE IF n = 1 THEN AppendElement(cfg, c, x, R, id, <<1, 4, 0, 0>>, pos)
-  ELSE AppendRange(cfg, c, x, R, id, n, MoveKind(cfg))
+  ELSE IF pos # x.sz THEN InsertRangeHelper(cfg, c, x, R, id, pos, n, rk)
+  ELSE (IF Ticks(rk) THEN <<ITick(9)>> ELSE <<>>)   \* unchecked_next (first) == last: std::advance by the CONSTANT 1 is ++it
+                                                     \* in libstdc++ even for random access iterators (__builtin_constant_p)
+       \o (IF n = 1 THEN (IF Ticks(rk) THEN <<ITick(8)>> ELSE <<>>) \o AppendElement(cfg, c, x, R, id, <<CtorKind(cfg, rk), 4, 0, 0>>, pos)
+           ELSE AppendRange(cfg, c, x, R, id, n, MoveKind(cfg), rk))
 
 (***************************************************************************)
 (* Two-container routines.  d = destination (this), s = source (other);    *)
@@ -610,21 +643,23 @@ Script(cfg, pre, ln, id) ==
     [] op = "reserve"        -> Reserve(cfg, c, x, R, id, a[1])
     [] op = "shrink"         -> Shrink(cfg, c, x, R, id, N, InlRegion(c))
     [] op = "assign_n"       -> AssignCopies(cfg, c, x, R, id, a[1], 4, 100)
-    [] op = "assign_rng"     -> AssignRange(cfg, c, x, R, id, a[2])
-    [] op \in {"assign_il", "opeq_il"} -> AssignRange(cfg, c, x, R, id, a[1])
-    [] op = "append_rng"     -> AppendRange(cfg, c, x, R, id, a[2], StrongKind(cfg)) \o <<IRet(-1)>>      \* append returns *this
-    [] op = "append_il"      -> AppendRange(cfg, c, x, R, id, a[1], StrongKind(cfg)) \o <<IRet(-1)>>
-    [] op = "insert_rng"     -> InsertRange(cfg, c, x, R, id, a[1], a[3])
-    [] op = "insert_il"      -> InsertRange(cfg, c, x, R, id, a[1], a[2])
+    [] op = "assign_rng"     -> AssignRange(cfg, c, x, R, id, a[2], a[1])
+    [] op \in {"assign_il", "opeq_il"} -> AssignRange(cfg, c, x, R, id, a[1], 4)
+    [] op = "append_rng"     -> AppendRange(cfg, c, x, R, id, a[2], StrongKind(cfg), a[1]) \o <<IRet(-1)>>      \* append returns *this
+    [] op = "append_il"      -> AppendRange(cfg, c, x, R, id, a[1], StrongKind(cfg), 4) \o <<IRet(-1)>>
+    [] op = "insert_rng"     -> InsertRange(cfg, c, x, R, id, a[1], a[3], a[2])
+    [] op = "insert_il"      -> InsertRange(cfg, c, x, R, id, a[1], a[2], 4)
     [] op \in {"ctor_rng", "ctor_il"} ->
          \* forward-range constructor (3483): exact allocation, checked against max_size()
          LET al == IF cfg.isStd THEN 0 ELSE IF a[1] = 0 THEN 1 ELSE a[1]
              n  == IF op = "ctor_rng" THEN a[3] ELSE a[2]
-         IN IF n > N THEN
+             rk == IF op = "ctor_rng" THEN a[2] ELSE 4
+         IN StepTicks(rk, n) \o
+            (IF n > N THEN
               IF n > cfg.max THEN <<IThrow("length_error")>>
-              ELSE <<IAlloc(id, n, al), ITry(<<UCopyExt(10 + id, 0, 0, n)>>, <<IDealloc(id, n, al)>>),
+              ELSE <<IAlloc(id, n, al), ITry(<<UCopyExt(cfg, rk, 10 + id, 0, 0, n)>>, <<IDealloc(id, n, al)>>),
                      ISetP(c, TRUE, al), ISetHd(c, n, id), ISetSz(c, n)>>
-            ELSE <<UCopyExt(InlRegion(c), 0, 0, n), ISetP(c, TRUE, al), ISetHd(c, N, 0), ISetSz(c, n)>>
+            ELSE <<UCopyExt(cfg, rk, InlRegion(c), 0, 0, n), ISetP(c, TRUE, al), ISetHd(c, N, 0), ISetSz(c, n)>>)
     [] op = "erase"          -> EraseRangeImpl(cfg, c, x, R, a[1], a[1] + 1)
     [] op = "erase_rng"      -> EraseRangeImpl(cfg, c, x, R, a[1], a[2])
     [] op = "pop_back"       -> <<ISetSz(c, x.sz - 1), IDtor(R, x.sz - 1)>>
